@@ -439,6 +439,49 @@ pub fn systematic_runs(verif_seed: u64) -> Vec<RunSpec> {
             }
         }
     }
+    // histories around a build() that panics (the library re-parses its own output when both anchors are off;
+    // surrogate escapes of an astral character do not parse): the panic is a value like any other result, and
+    // whatever follows on the same builder, on a clone taken before or after, or on the same thread must still
+    // be what a fresh builder gives
+    for variant in 0..3u64 {
+        let mut rng = Rng::new(derive(verif_seed, &[0x50414E, variant]));
+        let mut pres = vec!["x💩".to_string(), "ab".to_string(), "a𝔸".to_string()];
+        rng.shuffle(&mut pres);
+        let boom = vec![Setter::Escape(true), Setter::NoAnchors];
+        let mut a: Vec<Op> = vec![Op::New { slot: 0, cases: pres.clone() }, Op::Clone { from: 0, to: 1 }];
+        for st in &boom {
+            a.push(Op::Set { slot: 0, setter: st.clone() });
+        }
+        a.extend([
+            Op::Build { slot: 0 },            // panics
+            Op::Build { slot: 0 },            // must panic again, the same way
+            Op::Clone { from: 0, to: 2 },     // clone taken after a panicking build
+            Op::Build { slot: 2 },
+            Op::Build { slot: 1 },            // clone taken before: plain result
+            Op::Set { slot: 0, setter: Setter::Verbose },
+            Op::Build { slot: 0 },
+            Op::Set { slot: 1, setter: Setter::Digits },
+            Op::Build { slot: 1 },
+        ]);
+        let mut b: Vec<Op> = vec![Op::New { slot: 0, cases: pres.clone() }];
+        if variant >= 1 {
+            // the same thread builds something harmless after a panic of its own
+            for st in &boom {
+                b.push(Op::Set { slot: 0, setter: st.clone() });
+            }
+            b.push(Op::Build { slot: 0 });
+            b.push(Op::New { slot: 1, cases: vec!["ab".into(), "cd".into()] });
+            b.push(Op::Build { slot: 1 });
+        } else {
+            b.push(Op::Build { slot: 0 });
+        }
+        out.push(RunSpec {
+            clients: vec![ClientSpec { hash_seed: rng.next_u64(), ops: a }, ClientSpec { hash_seed: rng.next_u64(), ops: b }],
+            sites: vec!["*".to_string()],
+            sched: SchedSpec::Policy { policy: if variant == 2 { "random".into() } else { "round-robin".into() }, switch_pct: 50, pct_depth: 2, seed: rng.next_u64() },
+            mailboxes: 0,
+        });
+    }
     out
 }
 
@@ -452,7 +495,15 @@ pub fn default_cfg() -> Cfg {
 // ---------------------------------------------------------------------------------------
 
 pub const SCENARIO_BASE: u64 = 10_000_000;
-pub const SCENARIOS: u64 = 4;
+/// 0..4: the four scenarios in the canonical process environment; 4..8: the same four under an odd one (Turkish
+/// locale, three CPUs); 8: scenario 0 under an address-space limit (failing allocations).
+pub const SCENARIOS: u64 = 12;
+pub const SCENARIO_KINDS: u64 = 4;
+/// Scenarios 8..12 run a large-automaton build with only this much address space (MiB) left above what the process
+/// has mapped when the build starts: allocations of that order fail. A failing allocation normally aborts the
+/// process (then the episode is not judged); code that handles it must still return the same result.
+pub const SCENARIO_MEMORY_LIMITED: u64 = 8;
+pub const SCENARIO_MEMORY_MARGINS_MB: [u64; 4] = [64, 96, 128, 192];
 
 fn plain_build(cases: Vec<String>, setters: Vec<Setter>) -> Vec<Op> {
     let mut ops = vec![Op::New { slot: 0, cases }];
@@ -476,6 +527,22 @@ fn spec(clients: Vec<Vec<Op>>, rng: &mut Rng, sites: Vec<String>, policy: &str) 
 }
 
 pub fn scenario_runs(k: u64, verif_seed: u64) -> Vec<RunSpec> {
+    if k >= SCENARIO_MEMORY_LIMITED {
+        // one client, two builds of automata with roughly a thousand states (the elimination matrix has states^2 cells)
+        let mut rng = Rng::new(derive(verif_seed, &[0x4D454D, 0]));
+        const AB: &[&str] = &["a", "b", "c"];
+        let mut runs = vec![];
+        for (n, len) in [(60usize, 20u64), (100, 20)] {
+            let mut set = BTreeSet::new();
+            while set.len() < n {
+                set.insert((0..len).map(|_| *rng.pick(AB)).collect::<String>());
+            }
+            let ops = plain_build(set.into_iter().collect(), vec![]);
+            runs.push(spec(vec![ops], &mut rng, vec![], "run-to-completion"));
+        }
+        return runs;
+    }
+    let k = k % SCENARIO_KINDS;
     let mut rng = Rng::new(derive(verif_seed, &[0x5343454E, k]));
     const LETTERS: &[&str] = &[
         "a", "b", "c", "d", "e", "f", "g", "h", "i", "j", "k", "l", "m", "n", "o", "p", "q", "r", "s", "t", "u", "v", "w", "x", "y", "z",
@@ -514,7 +581,7 @@ pub fn scenario_runs(k: u64, verif_seed: u64) -> Vec<RunSpec> {
         // short sets whose lists are long only through duplicates, each under two presentations on two clients
         1 => {
             let mut runs = vec![];
-            for (n, rep) in [(70usize, true), (130, true), (300, false), (300, true), (600, false), (1100, false)] {
+            for (n, rep) in [(70usize, true), (130, true), (300, false), (300, true), (600, false), (1100, false), (1100, true)] {
                 let w = words(&mut rng, n, 4, &LETTERS[..6]);
                 let setters = if rep { vec![Setter::Repetitions] } else { vec![] };
                 let mut p2 = w.clone();
